@@ -1,7 +1,7 @@
 //@ unit C05_ctx
 //@ props C05 C02 C01
 //@ strength proved-unbounded
-//@ min-verified 3
+//@ min-verified 5
 //@ assume MatchType::find_nth / find_next / find_prev carry the contracts PROVED in unit C02_find (clauses restated: a found index lies inside the run, after / before the start index)
 //@ assume pairpos / cursivepos / markbasepos / markligpos / markmarkpos need both indices inside the run (they index infos[i1], infos[i2]; markbasepos / markligpos / markmarkpos / cursivepos are unit C05_attach) and, taking `&mut [Info]`, cannot change the run's length
 //@ assume LookupList::lookup_cache_gpos returns some cached lookup or an error; Rc is replaced by Box (only dereferenced); Tuple, Info, the sub-table types are opaque placeholders
@@ -20,7 +20,8 @@ verus! {
 pub struct GPOS { pub opaque: u8 }
 pub struct GDEFTable { pub opaque: u8 }
 pub struct LayoutCache<T> { pub opaque: T }
-pub struct Info { pub opaque: u16 }
+pub struct GlyphStub { pub glyph_index: u16 }
+pub struct Info { pub glyph: GlyphStub }
 #[derive(Copy, Clone)]
 pub struct Tuple<'a> { pub opaque: &'a [u16] }
 #[derive(Copy, Clone)]
@@ -117,6 +118,32 @@ pub fn markmarkpos(subtables: &Vec<MarkBasePos>, i1: usize, i2: usize, infos: &m
 //@ attr #[verifier::loop_isolation(false)]
 //@ loop 1
         invariant infos@.len() == old(infos)@.len(),
+//@ spec
+    requires i < old(infos)@.len()
+    ensures final(infos)@.len() == old(infos)@.len()
+//@ end
+
+/// which rule matches is decided with closures: opaque here - some context, none, or an error (a `&mut` slice cannot change its length)
+#[verifier::external_body]
+pub fn gpos_lookup_contextpos<'a>(opt_gdef_table: Option<&GDEFTable>, match_type: MatchType, subtables: &'a [ContextLookup<GPOS>], glyph_index: u16, i: usize, infos: &mut [Info])
+    -> (r: Result<Option<Box<PosContext<'a>>>, ParseError>)
+    ensures final(infos)@.len() == old(infos)@.len()
+{ unimplemented!() }
+#[verifier::external_body]
+pub fn gpos_lookup_chaincontextpos<'a>(opt_gdef_table: Option<&GDEFTable>, match_type: MatchType, subtables: &'a [ChainContextLookup<GPOS>], glyph_index: u16, i: usize, infos: &mut [Info])
+    -> (r: Result<Option<Box<PosContext<'a>>>, ParseError>)
+    ensures final(infos)@.len() == old(infos)@.len()
+{ unimplemented!() }
+
+//@ fn src/gpos.rs | contextpos
+//@ ret r
+//@ spec
+    requires i < old(infos)@.len()
+    ensures final(infos)@.len() == old(infos)@.len()
+//@ end
+
+//@ fn src/gpos.rs | chaincontextpos
+//@ ret r
 //@ spec
     requires i < old(infos)@.len()
     ensures final(infos)@.len() == old(infos)@.len()
